@@ -16,6 +16,7 @@ import (
 	banktypes "github.com/cosmos/cosmos-sdk/x/bank/types"
 	distrtypes "github.com/cosmos/cosmos-sdk/x/distribution/types"
 	ibctransfertypes "github.com/cosmos/ibc-go/v8/modules/apps/transfer/types"
+	"github.com/ethereum/go-ethereum/common"
 	evmtypes "github.com/evmos/ethermint/x/evm/types"
 
 	crosschaintypes "github.com/functionx/fx-core/v8/x/crosschain/types"
@@ -41,6 +42,15 @@ func configs(sc *scenario) []config {
 				p := h.c.App.Erc20Keeper.GetParams(ctx)
 				p.EnableErc20, p.EnableEVMHook = false, false
 				return h.deliverGov(ctx, &erc20types.MsgUpdateParams{Authority: gov, Params: p})
+			}},
+		{Name: "the ERC-20 contracts of the registered pairs have no code any more (contract accounts deleted, as after SELFDESTRUCT)", Modules: []string{"/fx.erc20."},
+			Apply: func(h *harness, ctx sdk.Context, _ []authMsg) error {
+				for _, a := range []common.Address{sc.pairERC20, sc.extERC20} {
+					if err := h.c.App.EvmKeeper.DeleteAccount(ctx, a); err != nil {
+						return err
+					}
+				}
+				return nil
 			}},
 		{Name: "token conversion of the registered pair toggled off", Modules: []string{"/fx.erc20."},
 			Apply: func(h *harness, ctx sdk.Context, _ []authMsg) error {
